@@ -19,7 +19,7 @@ pub struct Party {
 /// Build the PSET of a scenario and a party assignment honouring the protocol's premises.
 pub fn build(r: &mut gen::Rg, sc: &Scenario, max_parties: usize) -> (Pset, Vec<Party>) {
     let n_in = sc.tx.input.len();
-    let k = r.gen_range(1..=max_parties.min(n_in));
+    let k = if n_in >= 2 && r.gen_range(0..4) != 0 { r.gen_range(2..=max_parties.min(n_in)) } else { r.gen_range(1..=max_parties.min(n_in)) };
     // partition inputs into k non-empty groups
     let mut owner = vec![0usize; n_in];
     let mut order: Vec<usize> = (0..n_in).collect();
@@ -57,12 +57,12 @@ pub fn build(r: &mut gen::Rg, sc: &Scenario, max_parties: usize) -> (Pset, Vec<P
         let own: Vec<usize> = (0..n_in).filter(|i| owner[*i] == owner[inp]).collect();
         blinder_index.insert(*o, *gen::pick(r, &own) as u32);
     }
-    // premise: a party owning a confidential input owns at least one marked output; otherwise
+    // premise: a party owning a (fully or partially) confidential input owns at least one marked output; otherwise
     // hand its inputs over to a party that does
     let has_out = |p: usize, out_owner: &HashMap<usize, usize>| out_owner.values().any(|x| *x == p);
     let with_out: Vec<usize> = (0..k).filter(|p| has_out(*p, &out_owner)).collect();
     for p in 0..k {
-        let conf = (0..n_in).any(|i| owner[i] == p && sc.spent[i].asset.is_confidential());
+        let conf = (0..n_in).any(|i| owner[i] == p && (sc.spent[i].asset.is_confidential() || sc.spent[i].value.is_confidential()));
         if conf && !has_out(p, &out_owner) {
             let to = *gen::pick(r, &with_out);
             for i in 0..n_in {
@@ -222,9 +222,17 @@ pub fn run_order(ctx: &mut Ctx, sc: &Scenario, pset0: &Pset, parties: &[Party], 
 }
 
 pub fn run(ctx: &mut Ctx) {
+    ctx.seen("exhaustive_subspaces", "C09: every choice of last party with outputs x every permutation of the other parties, per scenario");
     let n = ctx.budget(2_400, 60_000);
     ctx.phase("scenarios", n, |ctx, k| {
-        let sc = gen_scenario(&mut ctx.rng, &Dials { issuances: k % 3 == 0, max_inputs: 5, ..Dials::default() });
+        // prefer scenarios with several inputs so that several parties exist
+        let mut sc = gen_scenario(&mut ctx.rng, &Dials { issuances: k % 3 == 0, max_inputs: 5, ..Dials::default() });
+        for _ in 0..3 {
+            if sc.tx.input.len() >= 2 || k % 5 == 0 {
+                break;
+            }
+            sc = gen_scenario(&mut ctx.rng, &Dials { issuances: k % 3 == 0, max_inputs: 5, ..Dials::default() });
+        }
         let (pset, parties) = build(&mut ctx.rng, &sc, 4);
         let np = parties.len();
         if k < 6 {
